@@ -470,6 +470,23 @@ pub fn run(ctx: &Ctx) -> i32 {
         }
     });
     acc.merge(long_acc);
+    // texts of more than a million characters whose FIRST document is one long flow sequence or one long
+    // quoted scalar (cut anywhere, such a document does not parse): 2.4 MB in UTF-16, 4.8 MB in UTF-32
+    let mega: Vec<String> = vec![
+        format!("[{}z]\n", "abcdefgh, ".repeat(if ctx.thorough() { 300_000 } else { 120_000 })),
+        format!("k: \"{}\"\nn: 1\n", "0123456789 ".repeat(if ctx.thorough() { 250_000 } else { 110_000 })),
+    ];
+    let mega_acc = crate::par::run(mega.len() * 4, 1, |i, acc| {
+        let text = &mega[i / 4];
+        let enc = ENCS[i % 4];
+        acc.count("texts_of_more_than_a_million_characters");
+        for mode in [Mode::Reader(Sched::All), Mode::Reader(Sched::Fixed(65536)), Mode::Slice] {
+            for detect in [true, false] {
+                translation_level(text, enc, i % 8 >= 4, &mode, detect, Fmt::Json, acc);
+            }
+        }
+    });
+    acc.merge(mega_acc);
     // streams shorter than the four bytes that encoding detection would like to see: one-character
     // documents, with and without the mark (document-less texts are left out: for them the UTF-8 slice
     // path differs from every other path - the recorded finding C02-yaml-documentless-stream)
@@ -494,11 +511,11 @@ pub fn run(ctx: &Ctx) -> i32 {
         }
     }
     ev::run_isolated("c07-enum", &["--tier".into(), ctx.tier.clone(), "--seed".into(), ctx.seed.to_string()], "exhaustive re-encoder enumeration", &mut acc);
-    let rule = format!("(a) {} generated YAML streams (1-3 documents, hostile scalars, every spelling feature) x one encoding in turn x [BOM, no BOM when the text starts with ASCII] x [slice, reader fixed(1..9), reader random] x [explicit, detected], compared with the same text in UTF-8; (b) exhaustive at the re-encoder hook: all 63 488 non-surrogate UTF-16 units, all 1 048 576 surrogate pairs, all 1 112 064 UTF-32 scalar values, both byte orders, with/without BOM, input buffer capacities and output buffer sizes varied ({} variants each), against a std-based reference decoder; ill-formed classes: EVERY ordered pair of surrogate units that is not a well-formed pair (thorough: all 3 145 728; quick: a sixteenth of the first units x all second units), every surrogate value as lone lead / lead+non-trail / lead+lead / lone trail / reversed pair, truncated units, every UTF-32 value in D800..DFFF, values >= 0x110000; distinct non-trivial = distinct texts plus distinct enumeration blocks", n_texts, if ctx.thorough() { 11 } else { 2 });
+    let rule = format!("(a) {} generated YAML streams (1-3 documents, hostile scalars, every spelling feature) x one encoding in turn x [BOM, no BOM when the text starts with ASCII] x [slice, reader fixed(1..9), reader random] x [explicit, detected], compared with the same text in UTF-8; texts of tens of KiB with multi-byte characters around the read sizes; 2 texts of more than a million characters (one flow sequence, one quoted scalar) x 4 encodings x [reader whole, reader 64 KiB, slice] x [detected, explicit]; one-character streams; (b) exhaustive at the re-encoder hook: all 63 488 non-surrogate UTF-16 units, all 1 048 576 surrogate pairs, all 1 112 064 UTF-32 scalar values, both byte orders, with/without BOM, input buffer capacities and output buffer sizes varied ({} variants each), against a std-based reference decoder; ill-formed classes: EVERY ordered pair of surrogate units that is not a well-formed pair (thorough: all 3 145 728; quick: a sixteenth of the first units x all second units), every surrogate value as lone lead / lead+non-trail / lead+lead / lone trail / reversed pair, truncated units, every UTF-32 value in D800..DFFF, values >= 0x110000; distinct non-trivial = distinct texts plus distinct enumeration blocks", n_texts, if ctx.thorough() { 11 } else { 2 });
     let mut extra = serde_json::Map::new();
     extra.insert("reencoder_enumeration_complete".into(), json!(true));
     ev::finish(
-        Finish { ctx, level: "exploration", rule, assumptions: vec!["reference decoder: char::decode_utf16 / char::from_u32 from the standard library".into(), "for failing texts only the verdict class and prefix-comparable output are compared (error positions are byte offsets of what the parser saw)".into()], extra, exhaustive: false, min_distinct: 1000, must_reach: vec![("surrogate_pairs_enumerated".into(), 2 * 1_048_576), ("utf32_scalars_enumerated".into(), 2 * 1_112_064), ("illformed_streams".into(), 10000), ("illformed_surrogate_pairs_enumerated".into(), 100000), ("translation_level_slice".into(), 1000), ("ascii_only_texts".into(), 20), ("detected_variants".into(), 500), ("YAML_SLICE_REENCODE_PATH".into(), 500)] },
+        Finish { ctx, level: "exploration", rule, assumptions: vec!["reference decoder: char::decode_utf16 / char::from_u32 from the standard library".into(), "for failing texts only the verdict class and prefix-comparable output are compared (error positions are byte offsets of what the parser saw)".into()], extra, exhaustive: false, min_distinct: 1000, must_reach: vec![("surrogate_pairs_enumerated".into(), 2 * 1_048_576), ("utf32_scalars_enumerated".into(), 2 * 1_112_064), ("illformed_streams".into(), 10000), ("illformed_surrogate_pairs_enumerated".into(), 100000), ("translation_level_slice".into(), 1000), ("ascii_only_texts".into(), 20), ("detected_variants".into(), 500), ("YAML_SLICE_REENCODE_PATH".into(), 500), ("texts_of_more_than_a_million_characters".into(), 8)] },
         acc,
     )
 }
